@@ -63,7 +63,8 @@ def entry_points(prog):
                 "stix2.canonicalization.Canonicalize::canonicalize",
                 "stix2.markings.utils::expand_markings", "stix2.markings.utils::compress_markings", "stix2.markings.utils::validate",
                 "stix2.markings.utils::iterpath", "stix2.markings.utils::build_granular_marking",
-                "stix2.markings.utils::convert_to_list", "stix2.markings.utils::convert_to_marking_list"):
+                "stix2.markings.utils::convert_to_list", "stix2.markings.utils::convert_to_marking_list",
+                "stix2.custom::_with_extension"):
         add(fid)
     for mod in ("stix2.markings", "stix2.markings.granular_markings", "stix2.markings.object_markings"):
         for n in ("get_markings", "set_markings", "remove_markings", "add_markings", "clear_markings", "is_marked"):
@@ -112,6 +113,8 @@ def run(ctx):
     ctx.do(rule_no_alias_then_mutate, "C13.no-param-mutation", ("stix2.",))
     from .hidden_state import rule_no_hidden_state
     ctx.do(rule_no_hidden_state, "C13.history-independence")
+    from .pitfalls import rule_loops_not_cut_short
+    ctx.do(rule_loops_not_cut_short, "C13.loops-complete")
 
 
 def rule_no_param_mutation(ctx, rule_id="C13.no-param-mutation", modules=None, floor=120):
